@@ -868,6 +868,9 @@ func main() {
 
 	if *funcsPath != "" {
 		writeIfChanged(*funcsPath, emitFuncs(root, types, env, tenv))
+		writeIfChanged(filepath.Join(filepath.Dir(*funcsPath), "GenDecrypt.v"), emitDecryptFuncs(types, tenv))
+		writeIfChanged(filepath.Join(filepath.Dir(*funcsPath), "GenTree.v"), treeOut)
+		writeIfChanged(filepath.Join(filepath.Dir(*funcsPath), "GenBuild.v"), buildOut)
 	}
 	if *litPath != "" {
 		writeIfChanged(*litPath, collectLiterals(root, types, uuid))
